@@ -340,6 +340,36 @@ func Coordinate(self string, p *Prop, tier string) int {
 	if p.Post != nil {
 		p.Post(tier, merged)
 	}
+	if p.Digest != nil {
+		// two fresh processes must agree on every digest line
+		var outs [2][]string
+		for k := range outs {
+			cmd := exec.Command(self, "--digest", p.ID)
+			cmd.Env = append(os.Environ(), "TZ=UTC")
+			b, err := cmd.Output()
+			if err != nil {
+				fmt.Fprintln(os.Stderr, "digest process failed:", err)
+				harnessErr = true
+			}
+			outs[k] = strings.Split(strings.TrimSpace(string(b)), "\n")
+			merged.Evaluations += int64(len(outs[k]))
+		}
+		merged.Extra["cross_process_digest_lines"] = int64(len(outs[0]))
+		for i := range outs[0] {
+			if i >= len(outs[1]) || outs[0][i] != outs[1][i] {
+				other := ""
+				if i < len(outs[1]) {
+					other = outs[1][i]
+				}
+				merged.VioCount++
+				merged.VioKeys["cross-process-differs"]++
+				if merged.VioKeys["cross-process-differs"] <= 2 {
+					merged.Violations = append(merged.Violations, Violation{Key: "cross-process-differs", Family: "digest", Index: int64(i),
+						Case: outs[0][i], Expected: "identical digests in two fresh processes", Observed: outs[0][i] + " vs " + other})
+				}
+			}
+		}
+	}
 
 	// classify violations
 	known := loadKnown()
